@@ -11,7 +11,7 @@ import Proofs.C16Fwd
 
 /-!
 Helper lemmas for the chip-footprint part of property C16 (`Model/ChipBorder.lean`):
-`numpy.amax`, the upper pixel edge, the interval counts, `numpy.linspace`, the shape of the border
+`numpy.amax` / `numpy.amin`, Python's `min` / `max` and the bounding-box rectangle, the upper pixel edge, the interval counts, `numpy.linspace`, the shape of the border
 walk and chain / shoelace lemmas for axis-parallel closed walks.
 -/
 open TW TW.Hist
@@ -86,6 +86,105 @@ theorem amax_spec (l : List K) :
       rcases List.mem_cons.mp hv with e | hv
       · rw [e]; exact h2
       · exact h3 v hv
+
+/-! ### `numpy.amin`, Python's `min` / `max`, the bounding-box rectangle -/
+
+/-- the running minimum of `numpy.amin` -/
+def fmn (a : K) (l : List K) : K := l.foldl (fun m v => if v < m then v else m) a
+
+theorem fmn_cons (a b : K) (t : List K) : fmn a (b :: t) = fmn (if b < a then b else a) t := rfl
+
+theorem amin_cons (a : K) (rest : List K) : amin (a :: rest) = some (fmn a rest) := rfl
+
+theorem foldmin_spec (rest : List K) : ∀ a : K,
+    (fmn a rest = a ∨ fmn a rest ∈ rest) ∧ fmn a rest ≤ a ∧ ∀ v ∈ rest, fmn a rest ≤ v := by
+  induction rest with
+  | nil => intro a; simp [fmn]
+  | cons b t ih =>
+    intro a
+    rw [fmn_cons]
+    by_cases hab : b < a
+    · rw [if_pos hab]
+      obtain ⟨h1, h2, h3⟩ := ih b
+      refine ⟨?_, le_trans h2 (le_of_lt hab), ?_⟩
+      · right
+        rcases h1 with h | h
+        · rw [h]; exact List.mem_cons_self
+        · exact List.mem_cons_of_mem _ h
+      · intro v hv
+        rcases List.mem_cons.mp hv with e | hv
+        · rw [e]; exact h2
+        · exact h3 v hv
+    · rw [if_neg hab]
+      obtain ⟨h1, h2, h3⟩ := ih a
+      refine ⟨?_, h2, ?_⟩
+      · rcases h1 with h | h
+        · left; exact h
+        · right; exact List.mem_cons_of_mem _ h
+      · intro v hv
+        rcases List.mem_cons.mp hv with e | hv
+        · rw [e]; exact le_trans h2 (not_lt.mp hab)
+        · exact h3 v hv
+
+/-- `numpy.amin`: `none` exactly for the empty column, otherwise an entry below all entries -/
+theorem amin_spec (l : List K) :
+    (l = [] ∧ amin l = none) ∨ (∃ m, amin l = some m ∧ m ∈ l ∧ ∀ v ∈ l, m ≤ v) := by
+  cases l with
+  | nil => left; exact ⟨rfl, rfl⟩
+  | cons a rest =>
+    right
+    obtain ⟨h1, h2, h3⟩ := foldmin_spec rest a
+    refine ⟨_, amin_cons a rest, ?_, ?_⟩
+    · rcases h1 with h | h
+      · rw [h]; exact List.mem_cons_self
+      · exact List.mem_cons_of_mem _ h
+    · intro v hv
+      rcases List.mem_cons.mp hv with e | hv
+      · rw [e]; exact h2
+      · exact h3 v hv
+
+theorem pyMax_eq (a b : K) : pyMax a b = max a b := by
+  unfold pyMax
+  by_cases h : a < b
+  · rw [if_pos h, max_eq_right (le_of_lt h)]
+  · rw [if_neg h, max_eq_left (not_lt.mp h)]
+
+theorem pyMin_eq (a b : K) : pyMin a b = min a b := by
+  unfold pyMin
+  by_cases h : b < a
+  · rw [if_pos h, min_eq_right (le_of_lt h)]
+  · rw [if_neg h, min_eq_left (not_lt.mp h)]
+
+theorem rectBBOld_eq (b : Rect K) :
+    rectBBOld b = ⟨b.lx + 1 / 2, b.hx - 1 / 2, b.ly + 1 / 2, b.hy - 1 / 2⟩ := by
+  simp only [rectBBOld, TW.Hist.halfK_eq]
+
+/-- an empty catalog leaves the plain shrink -/
+theorem rectBB_nil (b : Rect K) : rectBB b [] = rectBBOld b := rfl
+
+/-- a non-empty catalog: with the smallest and largest coordinates `nx, mx, ny, my` of the catalog the
+rectangle is `[min (lx + 1/2) (max nx lx), max (hx - 1/2) (min mx hx)] × (the same in y)` -/
+theorem rectBB_ne (b : Rect K) (cat : List (K × K)) (hne : cat ≠ []) :
+    ∃ nx mx ny my,
+      (nx ∈ cat.map (fun p => p.1) ∧ ∀ s ∈ cat, nx ≤ s.1) ∧ (mx ∈ cat.map (fun p => p.1) ∧ ∀ s ∈ cat, s.1 ≤ mx) ∧
+      (ny ∈ cat.map (fun p => p.2) ∧ ∀ s ∈ cat, ny ≤ s.2) ∧ (my ∈ cat.map (fun p => p.2) ∧ ∀ s ∈ cat, s.2 ≤ my) ∧
+      rectBB b cat = ⟨min (b.lx + 1 / 2) (max nx b.lx), max (b.hx - 1 / 2) (min mx b.hx),
+        min (b.ly + 1 / 2) (max ny b.ly), max (b.hy - 1 / 2) (min my b.hy)⟩ := by
+  have hx : cat.map (fun p => p.1) ≠ [] := by simpa using hne
+  have hy : cat.map (fun p => p.2) ≠ [] := by simpa using hne
+  rcases amin_spec (cat.map fun p => p.1) with ⟨e, _⟩ | ⟨nx, enx, mnx, bnx⟩
+  · exact absurd e hx
+  rcases amax_spec (cat.map fun p => p.1) with ⟨e, _⟩ | ⟨mx, emx, mmx, bmx⟩
+  · exact absurd e hx
+  rcases amin_spec (cat.map fun p => p.2) with ⟨e, _⟩ | ⟨ny, eny, mny, bny⟩
+  · exact absurd e hy
+  rcases amax_spec (cat.map fun p => p.2) with ⟨e, _⟩ | ⟨my, emy, mmy, bmy⟩
+  · exact absurd e hy
+  refine ⟨nx, mx, ny, my, ⟨mnx, fun s hs => bnx _ (List.mem_map_of_mem hs)⟩,
+    ⟨mmx, fun s hs => bmx _ (List.mem_map_of_mem hs)⟩, ⟨mny, fun s hs => bny _ (List.mem_map_of_mem hs)⟩,
+    ⟨mmy, fun s hs => bmy _ (List.mem_map_of_mem hs)⟩, ?_⟩
+  unfold rectBB
+  simp only [enx, emx, eny, emy, pyMax_eq, pyMin_eq, rectBBOld_eq]
 
 /-! ### the upper edge of the pixel that contains the largest coordinate -/
 
